@@ -51,6 +51,7 @@ type mtype struct {
 	isptr bool
 	node  *mnode
 	tid   uint64 // struct type id
+	f32   bool   // Float32 (see quiet32)
 }
 
 type mfield struct {
@@ -254,7 +255,7 @@ var intW = map[schema.Type_Which]int{
 // mapType: gt == nil for fields that have no Go counterpart (their Go-side flavour is irrelevant).
 func (ms *mschema) mapType(gt reflect.Type, t schema.Type) *mtype {
 	if w, ok := intW[t.Which()]; ok {
-		return &mtype{kind: 'i', w: w}
+		return &mtype{kind: 'i', w: w, f32: t.Which() == schema.Type_Which_float32}
 	}
 	switch t.Which() {
 	case schema.Type_Which_void:
